@@ -34,6 +34,7 @@ THEOREMS = [
     "CharonV.Router.router_version_from_header",
     "CharonV.Router.router_no_call_on_error",
     "CharonV.Router.router_batch_atomic",
+    "CharonV.Router.router_elements_independent",
     "CharonV.Router.single_attestation_conversion",
     "CharonV.Router.router_total_partial",
     "CharonV.Router.malformed_is_not_always_4xx",
